@@ -132,6 +132,13 @@ def canon(e):
                 return ast.Constant(-n.operand.value)
             return n
 
+        def visit_Call(self, n):
+            self.generic_visit(n)
+            # dict(a=1, b=2) and {'a': 1, 'b': 2} are the same value
+            if isinstance(n.func, ast.Name) and n.func.id == 'dict' and not n.args and n.keywords and all(k.arg is not None for k in n.keywords):
+                return ast.Dict(keys=[ast.Constant(k.arg) for k in n.keywords], values=[k.value for k in n.keywords])
+            return n
+
         def visit_Compare(self, n):
             self.generic_visit(n)
             if len(n.ops) == 1:
